@@ -418,6 +418,20 @@ def _sel_query(n, tname):
     return q
 
 
+def _operand(o, name, objs):
+    """an operand of a set operation: a number of select terms, or ["nest", n, [[operator, operand], ...]] =
+    a chain  (query with n terms) OP o1 OP o2 ...  used as ONE operand"""
+    if isinstance(o, int):
+        return _sel_query(o, "%s%d" % (name, len(objs)))
+    _, n, ops = o
+    cur = _sel_query(n, "%sb%d" % (name, len(objs)))
+    for i, (opname, sub) in enumerate(ops):
+        inner = _operand(sub, "%s%d_" % (name, i), objs)
+        objs.append(inner)
+        cur = getattr(cur, opname)(inner)
+    return cur
+
+
 def run_s(case):
     cls = _qcls(case.get("cls", "Query"))
     base = cls.from_("base")
@@ -427,7 +441,7 @@ def run_s(case):
     def step(cur, call, objs):
         k = call[0]
         if k == "add":
-            other = _sel_query(call[2], "op%d" % len(objs))
+            other = _operand(call[2], "op", objs)
             objs.append(other)
             return getattr(cur, call[1])(other)
         if k == "render":
